@@ -560,18 +560,18 @@ def genericPath (op : JoinOp) (a b : Rep) : Res :=
 def reduce (a : List V) (getKey : V → Option V) (red : Option V → List V → List (Option V)) : List (Option V) :=
   (dedup (a.map getKey)).flatMap fun k => red k (a.filter fun v => decide (getKey v = k))
 
+/-- the reducer of `nestWithFunc`: the key tuple merged with `(attr: {fn t | t in the bucket})` -/
+def nestGroup (attr : String) (fn : V → Option V) (k : Option V) (tuples : List V) : List (Option V) :=
+  match k with
+  | none => [none]
+  | some kt =>
+    if (tuples.map fn).any Option.isNone then [none]
+    else [mergeT kt (V.mkTup [(attr, V.mkSet ((tuples.map fn).filterMap id))])]
+
 def nestWithFunc (a : Rep) (relAttrs attrs : Names) (attr : String) (fn : V → Option V) : Res :=
   if !isTrue a then .ok a
   else if !isSubset attrs relAttrs then .panic "nestWithFunc: nest attrs not a subset of relation attrs"
-  else
-    let key := minus relAttrs attrs
-    finish (reduce (enumerate a) (projectT key) fun k tuples =>
-      match k with
-      | none => [none]
-      | some kt =>
-        let nested := tuples.map fn
-        if nested.any Option.isNone then [none]
-        else [mergeT kt (V.mkTup [(attr, V.mkSet (nested.filterMap id))])])
+  else finish (reduce (enumerate a) (projectT (minus relAttrs attrs)) (nestGroup attr fn))
 
 def nest (a : Rep) (relAttrs attrs : Names) (attr : String) : Res :=
   nestWithFunc a relAttrs attrs attr (projectT attrs)
